@@ -187,3 +187,18 @@ RULES += [
     ('1040_s8812', 'clwkst_a_2', Y22, lambda c: (sum(c.opt('1040_s3.' + l, 0.0) for l in ('1', '2', '3', '4', '6d', '6e', '6f', '6l')) if c.x('1040.need_schedule_3_part_i') else 0.0),
      'Schedule 8812 instructions, Credit Limit Worksheet A line 2: Schedule 3 lines 1, 2, 3, 4, 6d, 6e, 6f, 6l'),
 ]
+
+
+# Lines the instructions REQUIRE to be completed in a situation: (form, line, years, condition(c), citation).
+# Judged on the return as solved (first pass): when the form is in the solution and the condition holds,
+# the line must be there (a part of the form the filer must fill in may not be silently left out).
+def _sb_part3(c):
+    return c.sol.get(f'{c.full}.4', 0.0) > 1500.0 or c.sol.get(f'{c.full}.6', 0.0) > 1500.0
+
+
+SB3 = 'Schedule B, Part III: "You must complete this part if you (a) had over $1,500 of taxable interest or ordinary dividends; ..."'
+REQUIRED = [
+    ('1040_sb', '7a', ALL, _sb_part3, SB3), ('1040_sb', '7b', ALL, _sb_part3, SB3), ('1040_sb', '8', ALL, _sb_part3, SB3),
+    ('8606', '15b', ALL, lambda c: c.has(f'{c.full}.15a'), 'Form 8606 Part I: line 15b is completed whenever line 15a is (line 15c = 15a - 15b)'),
+    ('8606', '15c', ALL, lambda c: c.has(f'{c.full}.15a'), 'Form 8606 Part I: line 15c is completed whenever line 15a is'),
+]
